@@ -151,7 +151,7 @@ CLAIMS = {
                  "start_needs_time_offset, decryptionKey_builder_ok_iff (METHOD and a non-blank URI, since the fix: 704a4ec; the empty URI the builder used to "
                  "accept was finding K6b). The one builder that does NOT validate (ExtXDateRangeBuilder) is stated as a _partial theorem with a counterexample "
                  "theorem and recorded as known finding K6a (a repair was withdrawn: the crate's own doc example violates the rule). Tie: exhaustive presence/value subsets of every tag as text, inside the enclosing master playlist and through the "
-                 "public builders on library and model (accept/reject must agree) and against the rules written independently in Python."),
+                 "public builders on library and model (accept/reject must agree) and against the rules written independently in Python. String level, order-free (Props/C14Text.lean): the attribute loops are replaced by their closed forms, so each rule is a statement about WHICH NAMES OCCUR in the attribute list (with well-formed values): sessionData_text_iff (accepted iff DATA-ID occurs and exactly one of VALUE / URI occurs), dateRange_text_iff (iff no malformed value, ID occurs, and END-ON-NEXT implies CLASS and neither DURATION nor END-DATE), decryptionKey_text_iff (iff no malformed value, METHOD occurs and some URI is non-blank), streamData_text_iff (BANDWIDTH), map_text_iff (URI), start_text_iff (TIME-OFFSET), each with its *_order_free corollary: two attribute lists that are rearrangements of each other are accepted or rejected together - a rule enforced for some attribute orders only contradicts these."),
         "design_ref": "DESIGN.md §7 C14",
         "note": "The lift from attribute text to accumulator state (the tokenizer + step fold) is exercised by the exhaustive run; the tokenizer inversion lemma attrPairs_render is proved in Proofs/Attr.lean.",
     },
